@@ -111,7 +111,7 @@ def run(ctx):
     if pf:
         ctx.violation(ctx.write_replay("property_callbacks.txt", "\n".join(pf[:12]) + "\n"), pf[0])
     k = 5 if ctx.tier == "quick" else 40
-    engine_check(ctx, PROFILE, 900, 30000, nontrivial, monitor=monitor, tag="C04s", expand=fault_variants(k))
+    engine_check(ctx, PROFILE, 900, 30000, nontrivial, monitor=monitor, tag="C04s", expand=fault_variants(k), share=0.62)
     cov1 = dict(ctx.coverage)
     engine_check(ctx, PROFILE_ASYNC, 300, 10000, nontrivial, monitor=monitor, tag="C04a", expand=fault_variants(k))
     for key in ("evaluations", "distinct_nontrivial", "traces_validated_against_impl", "disagreements", "monitor_failures"):
